@@ -25,8 +25,10 @@ sys.path.insert(0, HERE)
 import extract  # noqa: E402
 from rslex import lex, match_close  # noqa: E402
 
-GEN = os.path.join(ROOT, 'build', 'gen')
-EVID = os.path.join(ROOT, 'evidence')
+# VERIF_OUT redirects everything a run writes (used only by the parallel seeds driver; registered commands never set it)
+OUT = os.environ.get('VERIF_OUT', ROOT)
+GEN = os.path.join(OUT, 'build', 'gen')
+EVID = os.path.join(OUT, 'evidence')
 REPLAY = os.path.join(EVID, 'replay')
 LABEL = re.compile(r'\[(C\d{2,3})\.([A-Za-z0-9_\-]+)\]')
 
@@ -253,6 +255,10 @@ def run_unit(unit_path, prop, tier, seed, tag=None):
     block_props = {b['name']: b['props'] for b in rep['blocks']}
     for e in rep['lost']:
         u['undecided'].append({'reason': 'lost-anchor', 'detail': e})
+    # a function block without a single annotation has no contract: verifying it proves nothing (unit-file error, never /repo's)
+    for b in rep['blocks']:
+        if b.get('kind') == 'fn' and not b.get('proved_in') and not b.get('insertions') and b['name'] not in rep['changed']:
+            u['undecided'].append({'reason': 'unit-file-error', 'detail': 'fn block %s carries no annotation at all (no contract)' % b['name']})
     r = sh(verus_cmd(out_path), cwd=gen_dir)
     pv = parse_verus(r.stdout, r.stderr)
     if tier == 'thorough' and not tag:
